@@ -74,23 +74,12 @@ def run(ctx):
     ctx.count("spawned_tasks", ntask)
 
     ctx.rule("C07-R2", "the worker loop's only suspension point is its select!; branch handlers never suspend")
-    w = idx.find1(r"^wtransport::driver::worker::Worker::run_impl::\{closure#0\}$")
-    cfg = w.fn.cfg
-    in_loop = [s for s in w.susp if s.yield_bb is not None and any(
-        s.yield_bb in c and len(c) > 12 for c in cfg.sccs)]
-    nonsel = [s for s in in_loop if not s.is_select]
-    ctx.check("C07-R2", "run_impl loop suspensions", len(in_loop) >= 1 and not nonsel,
-              "Worker::run_impl suspends inside its loop outside the select!: %s" % [(s.where, ty_short(s.awaitee["ty_j"]) if s.awaitee else None) for s in nonsel], w.fn.at)
-    unm = [s for s in w.susp if s.yield_bb is None]
-    ctx.check("C07-R2", "run_impl suspensions matched", not unm, "cannot decide: unmatched suspension points in run_impl", w.fn.at)
-    for h in ("handle_uni_h3_stream", "handle_bi_h3_stream", "handle_remote_settings"):
-        f = ctx.A.fn("wtransport::driver::worker::Worker::%s" % h)
-        ctx.check("C07-R2", "%s is synchronous" % h, not f.is_coroutine and not f.raw.get("async"),
-                  "Worker::%s became async: a blocking send/lock in a handler stalls every stream" % h, f.at)
-        # and it only uses non-blocking sends
-        evs = [e for p in nonpanic(walk(f)) for e in event_strs(p)]
-        blocking = [e for e in evs if re.match(r"^(Sender|BiChannelEndpoint)::send\(", e) or "blocking_send" in e or "blocking_lock" in e]
-        ctx.check("C07-R2", "%s non-blocking" % h, not blocking, "Worker::%s uses a blocking queue operation: %s" % (h, blocking[:2]), f.at)
+    from rules import shared
+    shared.worker_loop_never_parks(ctx, "C07-R2", idx)
+
+    ctx.rule("C07-R7", "acceptor branches own no pulled stream across a later await (slots are reserved before the pull)")
+    shared.acceptor_branches(ctx, "C07-R7", idx)
+    shared.permit_before_pull(ctx, "C07-R7")
 
     ctx.rule("C07-R5", "the worker's acceptor branches wait only for the acceptor: every per-stream read happens in a spawned task")
     for name in ("accept_uni", "accept_bi", "accept_datagram"):
